@@ -120,6 +120,8 @@ pub struct Stats {
     pub stale_uses: u64,
     #[serde(default)]
     pub ops_on_client_threads: u64,
+    #[serde(default)]
+    pub captures_through_query_only_path: u64,
     pub name_classes: BTreeMap<String, u64>,
     pub miss_kinds: BTreeMap<String, u64>,
     pub kf_hits: BTreeMap<String, u64>,
@@ -152,6 +154,7 @@ impl Stats {
         self.echoed_normalized += o.echoed_normalized;
         self.stale_uses += o.stale_uses;
         self.ops_on_client_threads += o.ops_on_client_threads;
+        self.captures_through_query_only_path += o.captures_through_query_only_path;
     }
 }
 
@@ -536,18 +539,37 @@ impl<'f> Exec<'f> {
     fn capture(&mut self, i: usize, q: &str) -> (Option<Viol>, Vec<(String, Option<Loc>)>) {
         let mut out = vec![];
         let mut first: Option<Viol> = None;
-        let res = match self.doc.query_with_path(q) {
-            Ok(r) => r,
-            Err(_) => {
-                self.stats.query_errors += 1;
-                self.shape_add(2, 8);
-                return (None, out);
+        // one query text in four goes through `query_only_path` (paths) and `query` (nodes), paired by
+        // position, instead of `query_with_path`: "every path a query returns" covers both
+        let split_route = fnv(q.as_bytes()) % 4 == 0;
+        let pairs: Vec<(String, &Value)> = if split_route {
+            match (self.doc.query_only_path(q), self.doc.query(q)) {
+                (Ok(ps), Ok(ns)) => {
+                    self.stats.captures_through_query_only_path += 1;
+                    if ps.len() != ns.len() {
+                        let v = self.viol(i, "echo-unresolved", q, Some(q), format!("query_only_path reports {} paths but query returns {} nodes", ps.len(), ns.len()));
+                        return (Some(v), out);
+                    }
+                    ps.into_iter().zip(ns).collect()
+                }
+                _ => {
+                    self.stats.query_errors += 1;
+                    self.shape_add(2, 8);
+                    return (None, out);
+                }
+            }
+        } else {
+            match self.doc.query_with_path(q) {
+                Ok(r) => r.into_iter().map(|r| (r.clone().path(), r.val())).collect(),
+                Err(_) => {
+                    self.stats.query_errors += 1;
+                    self.shape_add(2, 8);
+                    return (None, out);
+                }
             }
         };
         let mut pending = vec![];
-        for r in res {
-            let path = r.clone().path();
-            let node: &Value = r.val();
+        for (path, node) in pairs {
             let loc = npath::loc_of(&self.doc, node);
             self.stats.echoed_paths += 1;
             if let Some(l) = &loc {
@@ -1759,6 +1781,7 @@ pub fn drive(tier_name: &str, seed: u64, workers: usize) -> i32 {
         "paths_echoed_that_equal_the_normalized_path": total.echoed_normalized,
         "stale_handle_uses": total.stale_uses,
         "operations_run_on_their_clients_own_os_thread": total.ops_on_client_threads,
+        "queries_fed_back_through_query_only_path_and_query": total.captures_through_query_only_path,
         "member_name_classes_on_judged_hits": total.name_classes,
         "miss_kinds_captured": total.miss_kinds,
         "known_finding_matches": total.kf_hits,
